@@ -150,6 +150,17 @@ def streams(rng, tier):
                 cols.append({"op": "tab", "cols": t, "key": ["names", list(tup)]})
         for s in ("a", "b", "c", "zz", "q"):
             cols.append({"op": "tab", "cols": t, "key": ["name", s]})
+    # the same selections on a table one of whose columns got its name through a LIVE VIEW after construction
+    # (t.cols()[j].name = ...): the old name "q" no longer exists - asking for it is an error - and the new one does
+    renamed = []
+    for c in cols:
+        if c["cols"] and c["cols"][0]["vals"]:
+            for j in range(len(c["cols"])):
+                key = c["key"]
+                renamed.append(dict(c, via_rename=[j, "q"]))
+                if key[0] == "names" and key[1]:
+                    renamed.append(dict(c, via_rename=[j, "q"], key=["names", ["q"] + key[1][1:]]))
+    cols += rng.sample(renamed, min(len(renamed), 400 if tier == "quick" else 4000))
     out.append(("cols", cols))
     # ---- rows x cols
     com = []
@@ -344,7 +355,12 @@ def observe(case):
                 key = V.lived_in(lambda xs: Vector(xs), list(case["key"][1]), case["lived"] + 7)
             return {"r": _vres(lambda: v[key]), "dt0": V.schema_obs(v.schema())}
         if op == "tab":
-            t = _mk_table(case["cols"])
+            if case.get("via_rename"):
+                j, old = case["via_rename"]
+                t = _mk_table([dict(c, name=old) if q == j else c for q, c in enumerate(case["cols"])])
+                t.cols()[j].name = case["cols"][j]["name"]
+            else:
+                t = _mk_table(case["cols"])
             key = _mk_tkey(case["key"])
             return {"r": _tres(lambda: t[key]), "dt0": [V.schema_obs(c.schema()) for c in t._underlying]}
         if op == "commute":
